@@ -95,8 +95,8 @@ def velocity(env, topo, perms, lost):
     return obs
 
 
-def rhs(env, topo, perms, t, adim, mode):
-    fs, spec, ends, times, builts, frames, pos, guess = series(env, topo, perms)
+def rhs(env, topo, perms, t, adim, mode, lost=None):
+    fs, spec, ends, times, builts, frames, pos, guess = series(env, topo, perms, lost=lost)
     F = fs.ForSys(frames, cm=False, initial_guess=guess)
     if any(m is None for m in F.mesh.mapping.values()):
         return []
@@ -106,11 +106,14 @@ def rhs(env, topo, perms, t, adim, mode):
     nf0 = len(frames)
     oth = t + 1 if t < nf0 - 1 else t - 1
     for pn in spec.used_junctions():
-        for ln in spec.lines_at(pn):
-            u = vs.u(ln, pn, t)
-            env.assume(u[0] != 0, soft=True)
-            env.assume(u[1] != 0, soft=True)
+        for fk in range(nf0):
+            for ln in spec.lines_at(pn):
+                u = vs.u(ln, pn, fk)
+                env.assume(u[0] != 0, soft=True)
+                env.assume(u[1] != 0, soft=True)
         for k in range(nf0 - 1):
+            if lost == pn and k == 0:
+                continue
             env.assume((pos[k + 1][pn][0] != pos[k][pn][0]) | (pos[k + 1][pn][1] != pos[k][pn][1]))
     try:
         F.build_force_matrix(when=t)
@@ -129,12 +132,17 @@ def rhs(env, topo, perms, t, adim, mode):
     obs = [Ob("one-row-pair-per-used-junction", sorted(rows) == sorted(used) and b.shape == (2 * len(used), 1))]
     speeds = []
     for pn in used:
+        if lost == pn and t == 0:
+            speeds.append(0)          # no tracked partner: velocity zero, and it still counts in the mean
+            continue
         dx, dy = pos[other][pn][0] - pos[t][pn][0], pos[other][pn][1] - pos[t][pn][1]
         speeds.append(np.sqrt(dx * dx + dy * dy) / abs(dt))
     mean = sum(speeds[1:], speeds[0]) / len(speeds)
     ok = env.true()
     for pn, r0 in rows.items():
         dx, dy = pos[other][pn][0] - pos[t][pn][0], pos[other][pn][1] - pos[t][pn][1]
+        if lost == pn and t == 0:
+            dx, dy = 0, 0
         if mode != "velocity":
             ok = ok & env.eq(b[r0, 0], 0) & env.eq(b[r0 + 1, 0], 0)
         elif adim:
@@ -166,4 +174,8 @@ def jobs(tier):
                     js.append(Job(f"rhs-{topo}-{'-'.join(perms)}-t{t}-adim={adim}-{mode}", "c13:rhs",
                                   dict(topo=topo, perms=list(perms), t=t, adim=adim, mode=mode), budget_s=900, max_paths=2000,
                                   opts=dict(cheap_forks=True), weight=3))
+    # several used junctions, one of them without a tracked partner: its zero velocity still enters the mean speed
+    js.append(Job("rhs-K4-n0-id-rev-gap-t0-adim=True-velocity-lost=J2", "c13:rhs",
+                  dict(topo="K4-n0", perms=["id", "rev", "gap"], t=0, adim=True, mode="velocity", lost="J2"), budget_s=1200, max_paths=3000,
+                  opts=dict(cheap_forks=True), weight=6))
     return js
